@@ -120,6 +120,14 @@ def ref_of(*vals):
     return V(reads=reads, arg=arg)
 
 
+STATIC_PREFIXES = ("<default:", "<module:", "<class:")
+MUTABLE = (list, dict, set, bytearray)
+
+
+def is_static(path: str) -> bool:
+    return path.startswith(STATIC_PREFIXES)
+
+
 def join(path, attr):
     return attr if path == "" else f"{path}.{attr}"
 
@@ -144,6 +152,10 @@ class Analyser:
         self.blocks[-1].append(st)
 
     def emit_set(self, path, val: V):
+        if is_static(path):
+            # state shared between instances (mutable default / class / module object): never acceptable
+            self.emit(("mut", path, sorted(val.reads), val.arg))
+            return
         self.emit(("set", path, sorted(val.reads), val.arg))
 
     def emit_mut(self, path, val: V | None, why=""):
@@ -173,7 +185,14 @@ class Analyser:
     def write_attr(self, base: V, attr: str, val: V):
         """obj.attr = val"""
         targets = set(base.aliases)
+        if base.is_class is not None:
+            self.emit_mut(f"<class:{base.is_class.__name__}.{attr}>", val)      # Cls.attr = ...
+            return
         if targets:
+            for a in sorted(val.aliases):
+                if is_static(a) and not all(is_static(t) for t in targets):
+                    # a shared mutable object becomes reachable from the instance: stored by reference
+                    self.emit_mut(f"<escape: {a} stored by reference in {join(sorted(targets)[0], attr)}>", val)
             for p in sorted(targets):
                 self.emit_set(join(p, attr), val)
             if len(targets) == 1 and not base.local and base.shallow is None:
@@ -202,6 +221,8 @@ class Analyser:
                 raw = inspect.getattr_static(base.is_class, attr)
             except AttributeError:
                 return V()
+            if isinstance(raw, MUTABLE):
+                return V(aliases={f"<class:{base.is_class.__name__}.{attr}>"})
             if isinstance(raw, (staticmethod, classmethod)):
                 return V(func=raw.__func__, bound=(base, attr) if isinstance(raw, classmethod) else None)
             if inspect.isfunction(raw):
@@ -217,6 +238,8 @@ class Analyser:
                     raw = inspect.getattr_static(c, attr)
                 except AttributeError:
                     continue
+                if isinstance(raw, MUTABLE) and not any(join(p, attr) in self.rawtypes for p in base.aliases):
+                    return V(aliases={f"<class:{c.__name__}.{attr}>"}, reads=base.reads, arg=base.arg)
                 if isinstance(raw, property):
                     getters.append((c, raw.fget))
                 elif inspect.isfunction(raw):
@@ -287,10 +310,19 @@ class Analyser:
         env = {}
         g = sys.modules[fn.__module__].__dict__ if getattr(fn, "__module__", None) in sys.modules else {}
         defaults = a.defaults
+        real_defaults = dict(zip(params[len(params) - len(defaults):], getattr(fn, "__defaults__", None) or ()))
+        real_defaults.update(getattr(fn, "__kwdefaults__", None) or {})
+
+        def default_value(pn):
+            dv = real_defaults.get(pn)
+            if isinstance(dv, MUTABLE):
+                # the one object created when the function was defined, shared by every call
+                return V(aliases={f"<default:{key}.{pn}>"})
+            return V()
         for p, d in zip(params[len(params) - len(defaults):], defaults):
-            env[p] = V()
+            env[p] = default_value(p)
         for p in a.kwonlyargs:
-            env[p.arg] = V()
+            env[p.arg] = default_value(p.arg)
         for p, v in zip(params, posargs):
             env[p] = v
         if len(posargs) > len(params) and a.vararg:
@@ -710,6 +742,9 @@ class Frame:
                 if inspect.ismodule(o):
                     return V(local={}, func=None, is_class=None, static=None, const=None, elem=None, classes=None,
                              reads=(), aliases=(), lam=None, bound=("module", o))
+                if isinstance(o, MUTABLE):
+                    mod = getattr(self.fn, "__module__", "?")
+                    return V(aliases={f"<module:{mod}.{node.id}>"})
             return V()
         if isinstance(node, ast.Attribute):
             base = self.eval(node.value)
@@ -1016,6 +1051,40 @@ def collect_types(obj, types: dict, path="", depth=0, seen=None):
                     collect_types(e, types, p + "[*]", depth + 1, seen)
         elif type(v).__module__.split(".")[0] == PKG:
             collect_types(v, types, p, depth + 1, seen)
+
+
+def analyse_constructor(cls, samples, dialect_classes):
+    """program of cls.__init__ called with every defaulted parameter left at its default (so that a mutable
+    default is the shared object) and every required parameter an opaque argument"""
+    rawtypes: dict = {}
+    for s in samples:
+        collect_types(s, rawtypes)
+    types = {p: {c for c in cs if c.__module__.split(".")[0] == PKG} for p, cs in rawtypes.items()}
+    types = {p: cs for p, cs in types.items() if cs}
+    an = Analyser(types, dialect_classes, rawtypes)
+    selfv = V(aliases={""}, classes={cls})
+    init = inspect.getattr_static(cls, "__init__")
+    import dataclasses
+    if not inspect.isfunction(init) or (dataclasses.is_dataclass(cls) and an.source_ast(init) is None):
+        # no constructor of its own / generated dataclass constructor (dataclasses rejects mutable defaults
+        # and builds default_factory values afresh)
+        return {"program": [], "out_reads": [], "out_arg": False, "unknown": [], "inlined": [], "assumed_pure": []}
+    sig = inspect.signature(init)
+    pos, kw = [selfv], {}
+    for name, prm in list(sig.parameters.items())[1:]:
+        if prm.default is not inspect.Parameter.empty or prm.kind in (prm.VAR_POSITIONAL, prm.VAR_KEYWORD):
+            continue
+        if prm.kind == prm.KEYWORD_ONLY:
+            kw[name] = V(arg=True)
+        else:
+            pos.append(V(arg=True))
+    _AN[0] = an
+    try:
+        an.inline(init, pos, kw)
+    finally:
+        _AN[0] = None
+    return {"program": an.blocks[0], "out_reads": [], "out_arg": True, "unknown": an.unknown,
+            "inlined": sorted(an.inlined), "assumed_pure": sorted(an.assumed_pure)}
 
 
 def analyse(cls, entry: str, samples, dialect_classes):
